@@ -6,6 +6,7 @@ import PkgProofs.Props.Src.SSetMember
 `SSet.SpecSet.prereleases/str/len/contains`, for every iteration order `it` of the frozenset that an environment can
 prescribe (`Src.Ordered`), and `Src.ordered_of_perm`: every permutation of the members is prescribed by some environment.
 -/
+set_option linter.unusedSimpArgs false   -- x8: the simp sets list the lemmas of every accepted spelling
 namespace Src
 open PyRt Py V S
 open SSet (Member SpecSet CKey key canonical_isOk)
@@ -193,7 +194,8 @@ theorem SpecifierSet.contains_eq_model (env : Env) (T : SpecSet) (it : List Memb
     Gen.PySrc.SpecifierSet.contains env (ofSSet T) (ofVer "Version" c) (ofOptBool pre) (ofOptBool inst) =
       (T.contains it c pre (inst.getD false)).map PyVal.bool := by
   unfold Gen.PySrc.SpecifierSet.contains SpecSet.contains
-  simp only [isinstance_ofVer, truthy_bool, Bool.not_true, Bool.false_eq_true, if_false, resolve_jp env T it h]
+  simp only [isinstance_ofVer, _coerce_version_eq_model, ok_bind, truthy_bool, Bool.not_true, Bool.false_eq_true, if_false,
+    resolve_jp env T it h]
   cases T.resolve it pre with
   | error e => rfl
   | ok p =>
@@ -220,13 +222,15 @@ theorem SpecifierSet.contains_str (env : Env) (T : SpecSet) (it : List Member) (
   cases hs : scan s with
   | none =>
     unfold Gen.PySrc.SpecifierSet.contains
-    simp only [isinstance_str_version, truthy_bool, Bool.not_false, if_true, mkVersion_eq_model, S.version, hs]
+    simp only [isinstance_str_version, _coerce_version_str, truthy_bool, Bool.not_false, if_true, mkVersion_eq_model,
+      S.version, hs]
     rfl
   | some c =>
     have hc := V.scan_wf s c hs
     have key := SpecifierSet.contains_eq_model env T it h c hc pre inst
     unfold Gen.PySrc.SpecifierSet.contains at key ⊢
-    simp only [isinstance_ofVer, isinstance_str_version, truthy_bool, Bool.not_true, Bool.not_false, Bool.false_eq_true,
+    simp only [isinstance_ofVer, isinstance_str_version, _coerce_version_eq_model, _coerce_version_str, Except.map,
+      truthy_bool, Bool.not_true, Bool.not_false, Bool.false_eq_true,
       if_true, if_false, mkVersion_eq_model, S.version, hs, ok_bind] at key ⊢
     exact key
 
